@@ -51,6 +51,11 @@ def run(chk: Check, proj: Project) -> None:
 
     s5_accessors(chk, proj, ["MULTILINE_TAGS"], rule="S8")
     s9(chk, proj)
+    from . import C03
+    from .common import world
+
+    chk.borrow("S10", "the render_context layer pushed for a component render is popped on every normal path of THAT call (not later from a callback): a layer left on the parent's RenderContext makes an enclosing {% include %} pop the wrong one and later {% block %}s lose their BlockContext (shared with C03-S3)",
+               lambda sub: C03.s3(sub, proj, world(proj)))
 
 
 def s9(chk: Check, proj: Project) -> None:
